@@ -492,6 +492,29 @@ func suiteLex(o *suiteOut, r *rng, tier string, n int) {
 		}
 	}
 	serCase("s", nil)
+	// long strings with one byte that needs care at every position around 250, 500 and 64 kB (a serialiser that
+	// breaks long literals into lines, or escapes in blocks, meets its block boundary here)
+	for _, ln := range []int{700, 66000} {
+		for _, special := range []byte{'\\', '(', ')', '\r', '\n', 0, 0x80, 0xff} {
+			var positions []int
+			if ln == 700 {
+				for k := 230; k <= 275; k++ {
+					positions = append(positions, k, k+250)
+				}
+			} else {
+				positions = []int{65534, 65535, 65536, 65537}
+			}
+			for _, k := range positions {
+				b := bytes.Repeat([]byte{'a'}, ln)
+				b[k] = special
+				if special == '\\' || special == '\r' {
+					b[k+1] = pick(r, []byte{'n', '1', '\n', '(', 'a'})
+				}
+				serCase("s", b)
+				o.count("long strings with a special byte near a block boundary")
+			}
+		}
+	}
 	for i := 0; i < nr; i++ {
 		s := make([]byte, r.intn(40))
 		for j := range s {
@@ -658,6 +681,10 @@ func suiteEexec(o *suiteOut, r *rng, tier string, n int) {
 		}
 		var trailerClear string
 		prefix := pick(r, []string{"", "/before 1 def ", "%!PS\n5 dict begin /x 2 def end\n", "1 2 "})
+		if r.chance(1, 12) {
+			// a deep dictionary stack: 17, 18 or 19 dictionaries when the section begins (the limit is 20)
+			prefix += strings.Repeat("1 dict begin ", pick(r, []int{15, 16, 17}))
+		}
 		trailer := pick(r, []string{"", "\n" + strings.Repeat("0", 64) + "\ncleartomark /after 3 def", " 7 8", "\ncleartomark"})
 		var iv [4]byte
 		form := pick(r, []string{"hex", "binary"})
